@@ -446,6 +446,10 @@ def member_cases():
                 for j, qs in enumerate(QSETS):
                     t = M.cname(M.Ptr(M.qualify(M.INT, qs)))
                     out.append(('members', ('member-decay', o, m), 'int k%%d = __builtin_types_compatible_p(typeof(%s + 0), %s);' % (e, t), int(qs == q), 'member-qualifiers', e))
+                    # the address of the array member points to an array of qualified elements (6.7.3p9: the element type is so-qualified, not the array type)
+                    ta = M.cname(M.Ptr(M.Arr(M.qualify(M.INT, qs), 3)))
+                    out.append(('members', ('member-array-address', o, m), 'int k%%d = __builtin_types_compatible_p(typeof(&%s), %s);' % (e, ta), int(qs == q), 'member-qualifiers', e))
+                    out.append(('members', ('member-array-address-deref', o, m), 'int k%%d = __builtin_types_compatible_p(typeof(&(*&%s)[1]), %s);' % (e, t), int(qs == q), 'member-qualifiers', e))
                 continue
             for j, qs in enumerate(QSETS):
                 t = M.cname(M.Ptr(M.qualify(mt, qs)))
